@@ -72,7 +72,7 @@ def gen_cases(ctx):
         if fam == 4:  # random molecule (rings 3..12, fused / spiro / bridged, many centres, N / P / S lone-pair centres)
             from .. import molgen
 
-            skel = molgen.random_smiles(rng, n_heavy=(4, 16) if ctx.tier == "quick" else (4, 26))
+            skel = molgen.random_smiles(rng, n_heavy=(4, 16) if ctx.tier == "quick" else (4, 26))  # (molgen rejects anti-Bredt alkenes: no consistent ring-cis arrangement exists for them)
             iso = molgen.stereoisomers(skel, rng) if skel else []
             if not iso:
                 continue
@@ -201,11 +201,43 @@ def check_case(ctx, case):
         ctx.violate(f"C12/import-raises:{type(e).__name__}/{klass}/{kind}", f"import raised {e!r} for {case['smiles']} ({okey})", case)
         return
     def invented_orientation():
-        """mechanism classifier of the recorded finding: stereo_complete=True, RDKit itself reports an unlabelled potential
-        double-bond stereo unit in this molecule, and the very same two molecules import to EQUAL graphs (and to a proper
-        renaming) once stereo_complete is switched off with all other options unchanged - so the disagreement consists
-        of nothing but the orientations that stereo_complete invents for unlabelled double bonds"""
-        if not OPTS[opt][0] or not any(str(e.type) == "Bond_Double" for e in _unspecified_stereo(m1)):
+        """Mechanism classifier of the recorded finding (stereo_complete=True invents a parity / an orientation for every
+        unit RDKit leaves unlabelled). True only if ALL of the following hold:
+          * stereo_complete is on;
+          * under an atom mapping that respects RDKit's own labels (the renumbering itself, or a chirality-aware
+            substructure match for a re-spelling) the two imports have the same atoms and bonds and every descriptor
+            that differs sits on a unit without an RDKit label (untagged atom, STEREONONE / STEREOANY bond), has the
+            same class and the same ligand set on both sides - i.e. the imports differ in invented parities only;
+          * the very same two molecules import to equal graphs (and to a proper renaming) once stereo_complete is
+            switched off with all other options unchanged."""
+        if not OPTS[opt][0]:
+            return False
+        mp = old2new
+        if mp is None:
+            match = m2.GetSubstructMatch(m1, useChirality=True)
+            if len(match) != m1.GetNumAtoms():
+                return False
+            mp = dict(enumerate(match))
+        S1, S2 = sem.pg_relabel(snap(g1), mp), snap(g2)
+        if set(S1["atoms"]) != set(S2["atoms"]) or set(S1["bonds"]) != set(S2["bonds"]):
+            return False
+        ndiff = 0
+        for key in ("astereo", "bstereo"):
+            for k2 in set(S1[key]) | set(S2[key]):
+                d1, d2 = S1[key].get(k2), S2[key].get(k2)
+                if d1 is not None and d2 is not None and sem.desc_equiv(d1, d2):
+                    continue
+                if d1 is None or d2 is None or d1[0] != d2[0] or sorted(map(repr, d1[1])) != sorted(map(repr, d2[1])):
+                    return False
+                if key == "astereo":
+                    if m2.GetAtomWithIdx(k2).GetChiralTag() != Chem.ChiralType.CHI_UNSPECIFIED:
+                        return False
+                else:
+                    x, y = tuple(k2)
+                    if m2.GetBondBetweenAtoms(x, y).GetStereo() not in (Chem.BondStereo.STEREONONE, Chem.BondStereo.STEREOANY):
+                        return False
+                ndiff += 1
+        if not ndiff:
             return False
         o0 = OPTS.index((False,) + tuple(OPTS[opt][1:]))
         try:
@@ -221,9 +253,9 @@ def check_case(ctx, case):
         d = sem.pg_diff(want, snap(g2), mode="equiv", attrs=False)
         if d:
             part = d[0].split(":")[0].split("[")[0].split(" of ")[0].replace(" ", "-")
-            if part == "bond_stereo" and invented_orientation():
+            if part in ("bond_stereo", "atom_stereo") and invented_orientation():
                 ctx.count("invented_orientation_cases")
-                ctx.violate("C12/same-isomer-unequal/unlabelled-double-bond/stereo_complete=1", f"{case['smiles']} ({okey}): import of the renumbered molecule is not the renamed import: {'; '.join(d[:2])}", case)
+                ctx.violate("C12/same-isomer-unequal/unlabelled-unit/stereo_complete=1", f"{case['smiles']} ({okey}): import of the renumbered molecule is not the renamed import: {'; '.join(d[:2])}", case)
                 return
             ctx.violate(f"C12/renumbering-not-a-renaming/{klass}/{part}", f"{case['smiles']} ({okey}): import of the renumbered molecule is not the renamed import: {'; '.join(d[:2])}", case)
             return
@@ -235,7 +267,7 @@ def check_case(ctx, case):
         return
     if not eq and invented_orientation():
         ctx.count("invented_orientation_cases")
-        ctx.violate("C12/same-isomer-unequal/unlabelled-double-bond/stereo_complete=1", f"{case['smiles']} vs {Chem.MolToSmiles(m2, canonical=False)} ({okey}) import to unequal graphs", case)
+        ctx.violate("C12/same-isomer-unequal/unlabelled-unit/stereo_complete=1", f"{case['smiles']} vs {Chem.MolToSmiles(m2, canonical=False)} ({okey}) import to unequal graphs", case)
     elif not eq:
         ctx.violate(f"C12/same-isomer-unequal/{klass}/{kind if klass != 'cumulated-double-bond' else 'stereo_complete=%d' % OPTS[opt][0]}", f"{case['smiles']} vs {Chem.MolToSmiles(m2, canonical=False)} ({okey}) import to unequal graphs", case)
     elif not h:
